@@ -29,11 +29,11 @@ RULE = ("scripted runs of async_map_unordered: n inputs, per submission (ok|erro
 ASSUMPTIONS = [
     "asyncio.wait(FIRST_COMPLETED, timeout) returns exactly the pending futures that are done when it wakes; futures with equal deadlines complete in one loop turn (validated on the virtual-time loop)",
     "create_futures_func returns one fresh future per input (threads/processes_create_futures_func: list comprehension over the inputs)",
-    "no_crash is proved under 'input non-empty or no batching' and batch_size >= 1; the excluded case is the listed finding batch-size-empty-input",
+    "batch_size >= 1 (batch_size = 0 is a ValueError of batched(), a configuration error outside the property)",
     "liveness is checked, not proved: every scripted run terminates; the theorems are safety properties of every finite prefix of rounds",
 ]
 TRUSTED = [
-    "modelled not verified: float arithmetic of should_launch_backup (modelled on integers; the virtual clock only produces integers), tenacity's Retrying loop (modelled as stop_after_attempt recursion, compared with the real wrapper on every call pattern up to length 5), backup.cancel() (shown never to be observed again)",
+    "modelled not verified: float arithmetic of should_launch_backup (modelled on integers; the virtual clock only produces integers), tenacity's Retrying loop (modelled as stop_after_attempt recursion, compared with the real threads wrapper and the real processes worker-side wrapper on every call pattern up to length 5), backup.cancel() (shown never to be observed again)",
     "harness/vloop.py virtual-time event loop (subclass of asyncio.SelectorEventLoop; only time() and the idle jump are overridden)",
 ]
 
@@ -180,14 +180,6 @@ def kind_of(case, res):
 # the property itself, evaluated on one real run (no model involved)
 # ----------------------------------------------------------------------------------------------
 
-def classify_script(case, res):
-    """classifier for known genuine defects on scripted runs"""
-    if case["n"] == 0 and case["batch_size"] is not None and res["outcome"] == "crash" \
-            and "StopIteration" in (res["crash"] or ""):
-        return "batch-size-empty-input"
-    return None
-
-
 def property_violations(case, res):
     """list of human-readable violations of C08 by the observed run"""
     bad = []
@@ -248,7 +240,7 @@ def property_violations(case, res):
 def check_run(ctx, case, res):
     v = property_violations(case, res)
     if v:
-        ctx.fail("; ".join(v[:3]), case, key=classify_script(case, res))
+        ctx.fail("; ".join(v[:3]), case)
     return not v
 
 
@@ -317,6 +309,55 @@ def real_retry(retries, bits):
     return ok, calls[0]
 
 
+_RETRY = {"calls": 0, "bits": ()}
+
+
+def _scripted_task(i, **kw):
+    """module-level (pickled by reference) so that the call counter survives the unpickling done on every attempt"""
+    from vloop import ScriptError
+    _RETRY["calls"] += 1
+    k = _RETRY["calls"]
+    if k <= len(_RETRY["bits"]) and _RETRY["bits"][k - 1]:
+        return ("res", i)
+    raise ScriptError(k, i)
+
+
+def real_retry_processes(retries, bits):
+    """calls made and success of ONE future created by the real processes_create_futures_func (the worker-side wrapper is
+    run inline by a stub executor, so no process is spawned)"""
+    import asyncio
+    import concurrent.futures
+
+    from cubed.runtime.executors.local import processes_create_futures_func
+    from vloop import ScriptError
+    _RETRY["calls"] = 0
+    _RETRY["bits"] = tuple(bits)
+
+    class Inline:
+        def submit(self, f, *a, **kw):
+            fut = concurrent.futures.Future()
+            try:
+                fut.set_result(f(*a, **kw))
+            except BaseException as e:  # noqa
+                fut.set_exception(e)
+            return fut
+
+    async def go():
+        cf = processes_create_futures_func(Inline(), _scripted_task, retries)
+        [(i, fut)] = cf([7], name="op", config=None)
+        try:
+            await fut
+            return True
+        except ScriptError:
+            return False
+
+    ok = asyncio.run(go())
+    return ok, _RETRY["calls"]
+
+
+REAL_RETRY = {"threads": real_retry, "processes": real_retry_processes}
+
+
 def retry_cases():
     for retries in range(0, 4):
         for ln in range(0, 6):
@@ -325,16 +366,19 @@ def retry_cases():
 
 
 def corr_retry(ctx):
-    reqs, real = [], []
-    for retries, bits in retry_cases():
-        ok, calls = real_retry(retries, bits)
-        reqs.append(f"retry|retries={retries}|succ={''.join(map(str, bits))}")
-        real.append(f"ok={int(ok)} calls={calls}")
+    reqs, real, who = [], [], []
+    for exe, fn in REAL_RETRY.items():
+        for retries, bits in retry_cases():
+            ok, calls = fn(retries, bits)
+            reqs.append(f"retry|retries={retries}|succ={''.join(map(str, bits))}")
+            real.append(f"ok={int(ok)} calls={calls}")
+            who.append(exe)
     ans = ctx.lean.drive(DRIVER, reqs)
-    for rq, r, a in zip(reqs, real, ans):
-        ctx.count({"retry": rq, "impl": r}, nontrivial="0" in rq.split("succ=")[1], kind="retry-wrapper")
+    for rq, r, a, exe in zip(reqs, real, ans, who):
+        ctx.count({"retry": rq, "executor": exe, "impl": r}, nontrivial="0" in rq.split("succ=")[1], kind=f"retry-wrapper:{exe}")
         if r != a:
-            ctx.disagree("callWithRetries = threads_create_futures_func wrapper (success, number of calls)", {"request": rq}, a, r)
+            ctx.disagree(f"callWithRetries = {exe}_create_futures_func wrapper (success, number of calls)",
+                         {"request": rq, "executor": exe}, a, r)
 
 
 def corr(ctx):
@@ -386,26 +430,32 @@ def oracle_scripts(ctx, n_small, n_big):
             res = run_real(c)
             ctx.count({"oracle-script": c, "impl": canon_real(res)}, nontrivial=True, kind="oracle:historical-witness")
             check_run(ctx, c, res)
-    # the excluded corner, explicitly (known finding when it fails)
-    for ub in (False, True):
-        case = mk_case(0, [], ub, 2)
+    # an empty input under batch_size (repaired: used to end with StopIteration -> RuntimeError)
+    for ub, bs in ((False, 2), (True, 2), (True, 1), (False, 10)):
+        case = mk_case(0, [], ub, bs)
         res = run_real(case)
         ctx.count({"oracle-script": case, "impl": canon_real(res)}, nontrivial=True, kind="oracle:empty+batched")
         check_run(ctx, case, res)
 
 
 def oracle_retry(ctx):
-    for retries, bits in retry_cases():
-        ok, calls = real_retry(retries, bits)
-        first = next((k + 1 for k, b in enumerate(bits) if b), None)
-        want_calls = min(first, retries + 1) if first is not None else retries + 1
-        want_ok = first is not None and first <= retries + 1
-        ctx.count({"retry": [retries, list(bits)]}, nontrivial=0 in bits, kind="oracle:retry-wrapper")
-        if calls > retries + 1:
-            ctx.fail(f"a submission made {calls} attempts with retries={retries}", {"retries": retries, "succeeds_on_call": list(bits)})
-        elif (ok, calls) != (want_ok, want_calls):
-            ctx.fail(f"retries={retries}: success={ok} after {calls} calls, expected success={want_ok} after {want_calls}",
-                     {"retries": retries, "succeeds_on_call": list(bits)})
+    for exe, fn in REAL_RETRY.items():
+        for retries, bits in retry_cases():
+            try:
+                ok, calls = fn(retries, bits)
+            except Exception as e:  # e.g. the wrapper does not accept `retries`
+                ctx.fail(f"{exe}_create_futures_func(retries={retries}) raised {type(e).__name__}: {e}"[:200],
+                         {"executor": exe, "retries": retries, "succeeds_on_call": list(bits)})
+                break
+            first = next((k + 1 for k, b in enumerate(bits) if b), None)
+            want_calls = min(first, retries + 1) if first is not None else retries + 1
+            want_ok = first is not None and first <= retries + 1
+            case = {"executor": exe, "retries": retries, "succeeds_on_call": list(bits)}
+            ctx.count({"retry": case}, nontrivial=0 in bits, kind=f"oracle:retry-wrapper:{exe}")
+            if calls > retries + 1:
+                ctx.fail(f"{exe}: a submission made {calls} attempts with retries={retries}", case)
+            elif (ok, calls) != (want_ok, want_calls):
+                ctx.fail(f"{exe}: retries={retries}: success={ok} after {calls} calls, expected success={want_ok} after {want_calls}", case)
 
 
 # ---- end to end -------------------------------------------------------------------------------------
@@ -473,19 +523,15 @@ def run_e2e(case):
         shutil.rmtree(d, ignore_errors=True)
 
 
-def classify_e2e(case, out):
-    err = out.get("error") or ""
-    if case["executor"] == "processes":
-        if case.get("retries") is not None and "TypeError" in err and "retries" in err:
-            return "processes-retries-kwarg"
-        if case.get("retries") is None and 1 <= case["k"] <= default_retries() and "InjectedIOError" in err \
-                and out["accesses"] == 1:
-            return "processes-no-retry"
-    return None
-
-
 def check_e2e(ctx, case):
     out = run_e2e(case)
+    for _ in range(2):
+        # a worker process that dies (killed from outside, import of a tree that is being rewritten) is not the code under
+        # test: repeat; a persistent BrokenProcessPool is reported like any other failure
+        if "BrokenProcessPool" not in (out.get("error") or ""):
+            break
+        ctx.dist["e2e:retried-after-BrokenProcessPool"] += 1
+        out = run_e2e(case)
     R = case["retries"] if case.get("retries") is not None else default_retries()
     k = case["k"]
     ctx.count({"e2e": case, "impl": {x: out[x] for x in ("outcome", "accesses", "fails")}}, nontrivial=k > 0,
@@ -509,9 +555,8 @@ def check_e2e(ctx, case):
             bad.append(f"{k} injected failures > retries={R} but compute() finished normally")
         elif "InjectedIOError" not in (out["error"] or ""):
             bad.append(f"compute() raised {out['error']} instead of the task's error")
-        elif out["accesses"] != R + 1 and not may_backup and case["executor"] == "threads":
-            # the threads wrapper re-raises only after exactly retries+1 attempts (C08_retry_spec); the processes executor
-            # has no wrapper (finding processes-no-retry) — giving up early is not a violation when no attempt could succeed
+        elif out["accesses"] != R + 1 and not may_backup:
+            # both local executors re-raise only after exactly retries+1 attempts (C08_retry_spec)
             bad.append(f"{out['accesses']} attempts on the faulty chunk with retries={R}")
         for op, nt in out["num_tasks"].items():
             if out["events"].get(op, 0) > nt:
@@ -519,7 +564,7 @@ def check_e2e(ctx, case):
     if out["accesses"] > (2 if may_backup else 1) * (R + 1):
         bad.append(f"{out['accesses']} attempts on one chunk exceed the budget (retries={R})")
     if bad:
-        ctx.fail("; ".join(dict.fromkeys(bad)), case, key=classify_e2e(case, out))
+        ctx.fail("; ".join(dict.fromkeys(bad)), case)
 
 
 def run_empty_region(batch_size):
@@ -559,10 +604,14 @@ def oracle_e2e(ctx):
     for _ in range(6 if thorough else 2):
         cases.append(e2e_case("threads", ctx.rng.choice([None, 1, 2]), ctx.rng.choice([0, 1]), ctx.rng.choice(["set", "get"]),
                               nchunks=ctx.rng.choice([12, 25, 30]), use_backups=True, batch_size=ctx.rng.choice([10, 11])))
-    pc = [e2e_case("processes", None, 0, "set"), e2e_case("processes", None, 1, "set"), e2e_case("processes", 1, 0, "get")]
+    # regression triggers of the repaired processes-executor defects: one transient chunk IO failure with default retries
+    # must succeed; the `retries=` option must be accepted and honoured
+    pc = [e2e_case("processes", None, 1, "set"), e2e_case("processes", 1, 0, "get"), e2e_case("processes", 1, 2, "set"),
+          e2e_case("processes", 0, 0, "set")]
     if thorough:
-        pc += [e2e_case("processes", r, k, op) for r in (None, 0, 2) for k in (0, 1, 3) for op in ("set",)][2:]
-        pc += [e2e_case("processes", None, 0, "get", nchunks=12, use_backups=True, batch_size=10)]
+        pc += [e2e_case("processes", r, k, op) for r in (None, 0, 2) for k in (0, 2, 3) for op in ("set",)][1:]
+        pc += [e2e_case("processes", 2, 1, "get"), e2e_case("processes", None, 3, "get")]
+        pc += [e2e_case("processes", None, 1, "get", nchunks=12, use_backups=True, batch_size=10)]
     cases += pc
     for case in cases:
         check_e2e(ctx, case)
@@ -571,8 +620,7 @@ def oracle_e2e(ctx):
         case = {"e2e": "to_zarr(empty array, region=(slice(0,0),))", "batch_size": bs, "executor": "threads"}
         ctx.count(dict(case, impl=err), nontrivial=True, kind="e2e:zero-task-op")
         if err is not None:
-            key = "batch-size-empty-input" if bs is not None and "StopIteration" in err else None
-            ctx.fail(f"an operation with zero tasks ended with {err}", case, key=key)
+            ctx.fail(f"an operation with zero tasks ended with {err}", case)
 
 
 def oracle(ctx):
@@ -620,4 +668,4 @@ def replay(ctx, body):
     elif isinstance(case, dict) and "executor" in case and "k" in case:
         print("observed:", run_e2e(case))
     elif isinstance(case, dict) and "retries" in case:
-        print("observed:", real_retry(case["retries"], case["succeeds_on_call"]))
+        print("observed:", REAL_RETRY[case.get("executor", "threads")](case["retries"], case["succeeds_on_call"]))
